@@ -214,11 +214,14 @@ impl boxworks::TextPreprocessor for TextPreprocessorImpl {
             // TeX.2021.1043
             if self.space_factor.0 >= 2000 && !self.params.extra_space_skip.is_zero() {
                 self.params.extra_space_skip
-            } else if !self.params.space_skip.is_zero() {
-                self.params.space_skip
             } else {
-                // TeX.2021.1042
-                let mut g = self.fonts[self.current_font as usize].default_space;
+                // TeX.2021.1043: \\spaceskip is also adjusted for the space factor.
+                let mut g = if !self.params.space_skip.is_zero() {
+                    self.params.space_skip
+                } else {
+                    // TeX.2021.1042
+                    self.fonts[self.current_font as usize].default_space
+                };
                 // TeX.2021.1044
                 if self.space_factor.0 >= 2000 {
                     g.width += self.fonts[self.current_font as usize].extra_space;
